@@ -28,6 +28,12 @@ def harnesses(tier, seed, want=None):
     hs += [_sk(s, "quick") for s in short if not any(o[0] == "L" for o in s)]
     hs += [_sk(s, "thorough") for s in short if any(o[0] == "L" for o in s)]
     pick = set(map(tuple, rnd.sample(cheap4, min(10, len(cheap4)))))
+    # directed skeletons that are always in the quick tier: explicit root / explicit child created while another span
+    # is entered, parent pinned by a child, handle dropped while entered
+    for must in (["R", "E00", "R", "D0"], ["R", "E00", "K0", "D0"], ["R", "K0", "D0", "C1"], ["R", "R", "E10", "D1"],
+                 ["R", "K0", "K1", "D0"]):
+        if must in l4:
+            pick.add(tuple(must))
     for s in l4:
         hs.append(_sk(s, "quick" if tuple(s) in pick else "thorough"))
     if tier == "thorough":
